@@ -191,11 +191,20 @@ class Engine:
         return NotImplemented
 
     def await_value(self, it, v, fr):
+        from .values import Coro
         for h in self.await_hooks:
             r = h(it, v, fr)
             if r is not NotImplemented:
                 return r
+        if isinstance(v, Coro):
+            return self.run_coro(it, v)
         return v
+
+    def run_coro(self, it, co):
+        if co.done:
+            raise Unsupported("coroutine awaited twice")
+        co.done = True
+        return co.thunk()
 
     def exec_with(self, it, node, fr):
         for h in self.with_hooks:
@@ -308,7 +317,8 @@ class Engine:
         if k == "extobj":
             fields = {f: self.make_sym(ctx, sh, f"{name}.{f}") for f, sh in shape.fields.items()}
             fields["calls"] = ctx.alloc(HList([]))
-            fields["__returns__"] = shape.returns
+            fields["__methods__"] = shape.methods
+            fields["__stream__"] = shape.stream
             return ctx.alloc(HObj("ext:" + shape.cls, fields))
         if k == "keyset":
             from . import keysets
@@ -644,9 +654,13 @@ class Engine:
         idx = spec.get("idx", "_i")
         is_for = not isinstance(node, ast.While)
         seq = None
+        stream = None
         if is_for:
+            from .values import Stream
             if isinstance(iterable, SymSeq):
                 seq = iterable
+            elif isinstance(iterable, Stream):
+                stream = iterable
             elif isinstance(iterable, VRef) or isinstance(iterable, tuple):
                 items = it.iterate_concrete(iterable)
                 raise Unsupported("invariant on a loop over a concrete sequence (would be unrolled)")
@@ -677,26 +691,39 @@ class Engine:
             elif nme in fr.locals:
                 fr.locals[nme] = self.fresh_like(ctx, fr.locals[nme], nme)
         for obj_attr, shape in spec.get("havoc_fields", {}).items():
-            objn, attr = obj_attr.split(".")
-            ref = fr.locals[objn]
-            ctx.heap[ref.addr].fields[attr] = self.make_sym(ctx, shape, fresh_name(obj_attr))
+            parts = obj_attr.split(".")
+            ref = fr.locals[parts[0]]
+            for p in parts[1:-1]:
+                ref = ref.val if isinstance(ref, VOpt) else ref
+                ref = ctx.heap[ref.addr].fields[p]
+            ref = ref.val if isinstance(ref, VOpt) else ref
+            if ref is None:
+                continue
+            ctx.heap[ref.addr].fields[parts[-1]] = self.make_sym(ctx, shape, fresh_name(obj_attr))
         if is_for:
             iz = z3.Int(fresh_name(idx))
             fr.locals[idx] = S(iz, "int")
-            ctx.assume(z3.And(iz >= 0, iz <= seq.length))
+            if seq is not None:
+                ctx.assume(z3.And(iz >= 0, iz <= seq.length))
+            else:
+                ctx.assume(iz >= 0)
         sfr = self.spec_frame(fr)
         for nm, expr in invs.items():
             g = self.eval_clause(it, expr, sfr)
             ctx.assume(zbool(g) if not isinstance(g, bool) else g)
         # one arbitrary iteration, or exit
-        if is_for:
+        if is_for and stream is not None:
+            enter = ctx.choose(f"stream yields another item: {key}")
+        elif is_for:
             enter = ctx.branch(iz < seq.length, f"loop continues: {key}")
         else:
             enter = it.decide(it.eval(node.test, fr), it.src(node.test, fr))
         if enter:
             broke = False
             try:
-                if is_for:
+                if is_for and stream is not None:
+                    it.assign_target(node.target, self.make_sym(ctx, stream.shape, fresh_name("item")), fr)
+                elif is_for:
                     it.assign_target(node.target, seq.get(iz), fr)
                 it.exec_block(node.body, fr)
             except _Continue:
@@ -974,6 +1001,10 @@ class Engine:
         sfr.locals.update(ctx.ghost)
         for gname, gs in c.ghost_seqs.items():
             self.define_ghost_seq(it, sfr, gname, gs)
+        for an, aexpr in getattr(c, "aliases", {}).items():
+            av = it.eval(self.parse_clause(aexpr), sfr)
+            fr.locals[an] = av
+            sfr.locals[an] = av
         for nm, expr in c.requires.items():
             g = self.eval_clause(it, expr, sfr)
             ctx.assume(zbool(g) if not isinstance(g, bool) else g)
@@ -990,7 +1021,7 @@ class Engine:
         old_locals = dict(fr.locals)
         old_locals.update(ctx.ghost)
         old_heap = ctx.snapshot_heap()
-        ctx.old = None
+        ctx.old = (old_locals, old_heap)     # loop invariants may refer to the entry state
         outcome = None
         try:
             it.exec_block(fn.body, fr)
